@@ -107,6 +107,9 @@ class BuiltinMixin(CallMixin):
             return [(st, z3.BoolVal(self.is_subclass(args[0], args[1])))]
         if name == "callable":
             return [(st, z3.BoolVal(isinstance(args[0], (Closure, BoundMethod, ClassVal, Builtin))))]
+        if name == "str" and len(args) >= 2 and "builtins.str.decode" in self.R.external_map:
+            f = self.external_value("builtins.str.decode")
+            return self.call_value(st, ctx, f, list(args), kwargs, line)
         if name in ("str", "repr"):
             return [(st, OpaqueStr())]
         if name == "id":
@@ -197,6 +200,10 @@ class BuiltinMixin(CallMixin):
                 return z3.BoolVal(n == "str")
         if lv is None:
             return z3.BoolVal(False)
+        if is_z3(lv) and lv.sort() == smt.Obj:
+            cname = cls.name if isinstance(cls, Builtin) else (cls.cls.__name__ if isinstance(cls, PyClass) else cls.ci.name)
+            from .interp_call import ufunc
+            return ufunc("isinstance_" + cname, [smt.Obj], smt.Bo)(lv)
         raise EngineError(f"isinstance({v!r}, {cls!r})")
 
     def map_concrete(self, st, ctx, m, line, as_list=False):
@@ -232,13 +239,13 @@ class BuiltinMixin(CallMixin):
                 return self.bytes_find(st, ctx, s, a, line)
             if meth == "endswith":
                 p = ops.as_bytes(st, a[0])
-                return [(st, z3.And(smt.L(p) <= smt.L(s), z3.SubSeq(s, smt.L(s) - smt.L(p), smt.L(p)) == p))]
+                return [(st, smt.occ(s, p, smt.L(s) - smt.L(p)))]  # by occ-def: |p| <= |s| and s[|s|-|p|:] == p
             if meth == "startswith":
                 p = ops.as_bytes(st, a[0])
-                return [(st, z3.And(smt.L(p) <= smt.L(s), z3.SubSeq(s, 0, smt.L(p)) == p))]
+                return [(st, smt.occ(s, p, z3.IntVal(0)))]
             if meth == "removesuffix":
                 p = ops.as_bytes(st, a[0])
-                c = z3.And(smt.L(p) <= smt.L(s), smt.L(p) > 0, z3.SubSeq(s, smt.L(s) - smt.L(p), smt.L(p)) == p)
+                c = z3.And(smt.L(p) > 0, smt.occ(s, p, smt.L(s) - smt.L(p)))
                 return [(st, z3.If(c, z3.SubSeq(s, 0, smt.L(s) - smt.L(p)), s))]
             if meth == "join":
                 v = args[0]
@@ -325,6 +332,9 @@ class BuiltinMixin(CallMixin):
                 return [(st, None)]
             if meth in ("__post_init__", "__init_subclass__"):
                 return [(st, None)]
+        if kind == "obj" and ("obj." + meth) in self.R.external_map:
+            f = self.external_value("obj." + meth)
+            return self.call_value(st, ctx, f, [self_v] + list(args), kwargs, line)
         if kind == "pyclass":
             pass
         raise EngineError(f"{ctx.func.key()}:{line}: builtin method {name} is not modelled")
@@ -335,8 +345,11 @@ class BuiltinMixin(CallMixin):
         pr = self.prover(st)
         lo = smt.smart_clamp(a[1], n, pr) if len(a) > 1 and a[1] is not None else z3.IntVal(0)
         hi = smt.smart_clamp(a[2], n, pr) if len(a) > 2 and a[2] is not None else None
-        if hi is None:
+        if hi is None and z3.is_const(s):
             w = s
+        elif hi is None:
+            w = smt.fresh("window", smt.Bytes)
+            st.assume(w == s)
         else:
             # name the searched window so that it can appear in quantifier patterns
             w = smt.fresh("window", smt.Bytes)
